@@ -44,7 +44,14 @@ AddLimbs(l, n) ==
 
 VarLenPrefix(L) == IF L < 255 THEN << L >> ELSE << 255 >> \o BE2(L)
 
-IsVar(f) == f.len = VarLen
+\* DEVIATION (named): the library encodes a string element with a length prefix even when its
+\* information element declares a fixed length (no shipped element does; a user-registered one may).
+\* The template still advertises the declared length, and everything that READS (the decoder, the
+\* minimum-record-length computations of exporter and collector) goes by the declared length: DeclVar.
+\* Modelled so that builder-level properties (C16) and the decoder (C03) can be checked on such
+\* elements; round-trip runs do not generate them (what is encoded is not what is decoded).
+IsVar(f) == f.len = VarLen \/ f.type = "string"
+DeclVar(f) == f.len = VarLen
 
 \* Is v a well-typed abstract value for field f ?
 ValueOK(f, v) ==
@@ -120,7 +127,7 @@ RecLen(r) == IF r.kind = "template"
                ELSE DataRecordLen(r.fields, r.vals)
 
 MinRecLen(fields) ==
-  FoldLeft(LAMBDA acc, f : acc + (IF IsVar(f) THEN 1 ELSE f.len), 0, fields)
+  FoldLeft(LAMBDA acc, f : acc + (IF DeclVar(f) THEN 1 ELSE f.len), 0, fields)
 
 ---------------------------------------------------------------------------
 (* Reference parser (independent formulation) *)
@@ -129,7 +136,7 @@ Fail == [ok |-> FALSE]
 
 \* Parse one field starting at 1-based position pos of body.
 ParseField(body, pos, f) ==
-  IF IsVar(f) THEN
+  IF DeclVar(f) THEN
     IF pos > Len(body) THEN Fail
     ELSE IF body[pos] < 255 THEN
       LET L == body[pos] IN
